@@ -76,13 +76,19 @@ static mptr* xv_prev(struct find_info* i) {     /* concurrent_ptr* prev: a bucke
 void xv_env(void);
 #endif
 mptr* mon_val_cell; mptr mon_val_value; _Bool mon_val_ok; uint64_t mon_val_clock;   /* last acquire_if_equal */
+/* sync preconditions (memory orders are data): guard acquisitions acquire-or-stronger; link / unlink CAS release-or-stronger; mark CAS acquire-or-stronger */
+#ifdef XV_INT
+#define SYNC_OBL(c) XV_OBL("hmm.sync.orders", (c))
+#else
+#define SYNC_OBL(c) ((void)0)      /* checked once, in the INT runs */
+#endif
 static _Bool g_acquire_if_equal(guard_t* g, mptr* cell, mptr expected, int mo) {
-  XV_ENV(); xv_clock++;
+  XV_ENV(); xv_clock++; SYNC_OBL(XV_IS_ACQUIRE(mo));
   mon_val_cell = cell; mon_val_value = expected; mon_val_clock = xv_clock;
   if (*cell == expected) { *g = expected; mon_val_ok = 1; return 1; }
   *g = 0; mon_val_ok = 0; return 0;
 }
-static void g_acquire(guard_t* g, mptr* cell, int mo) { XV_ENV(); xv_clock++; *g = *cell; }
+static void g_acquire(guard_t* g, mptr* cell, int mo) { XV_ENV(); xv_clock++; *g = *cell; SYNC_OBL(XV_IS_ACQUIRE(mo)); }
 static void mon_reclaim(guard_t g);
 static void g_reclaim(guard_t* g) {
   _Bool ok = is_node(*g) && MP_mark(*g) == 0;
@@ -225,6 +231,7 @@ static void mon_load(void* addr, uint64_t v, int o) {
 static void mon_cas(void* addr, uint64_t e, uint64_t d, _Bool ok, int o) {
   mon_cas_count++; if (ok) mon_cas_ok_count++;
   mon_cas_cell = (mptr*)addr; mon_cas_expected = e; mon_cas_desired = d; mon_cas_last_ok = ok;
+  if (ok) { if (d == (e | 1) && MP_mark(e) == 0) SYNC_OBL(XV_IS_ACQUIRE(o)); else SYNC_OBL(XV_IS_RELEASE(o)); }     /* marking CAS : link / unlink CAS */
   if (mon_mode == MON_FIND) {
     /* find's only CAS unlinks a marked node: the cell and the expected value are the ones the latest acquire_if_equal validated;
        the new value is the successor read from cur->next after cur was seen marked (a marked next field is frozen) */
